@@ -26,13 +26,17 @@ REGISTRY = dict(
           "(0,->)..(n-3,->),(n-2,<-)..(1,<-) [(0,->),(0,<-) for 2 atoms]; before every call stacks are idx+1 / n-1-idx "
           "and the centre is on one of the two sites; only the RuntimeError can escape; call-level run = sweep-level "
           "run with that pattern inserted; converged <=> |e-previous_energy|<tol => step completes exactly once, in "
-          "order, count reset, state at centre 0; not converged => previous_energy updated; count+1>max_sweeps => "
-          "raise; a step never runs more than max(max_sweeps,1) sweeps and the raise only happens after >= max_sweeps "
-          "unconverged sweeps of that step. PARTIAL: 'reported energy = <psi|H|psi> of the normalised returned state' "
-          "(C13), norm 1 and canonical form of the tensors (C10 contracts) are validated numerically, not proved; "
-          "'matches the ground energy within the tolerance for small gapped systems' (MatchesGroundEnergy) is NOT a "
-          "theorem and is violated by the code (two known findings: local minimum; stale previous_energy across steps, "
-          "with a kernel-checked machine-level counterexample)."),
+          "order, count reset, previous_energy cleared, state at centre 0; not converged => previous_energy updated; "
+          "count+1>max_sweeps => raise; a step never runs more than max(max_sweeps,1) sweeps and the raise only happens "
+          "after >= max_sweeps unconverged sweeps of that step; and - the theorem that applies to the current tree "
+          "(repaired variant, /repo >= 3bcd9a6, detected by a probe on every run) - "
+          "repaired_every_step_compares_its_own_sweeps: every step is accepted only after comparing two sweeps of its "
+          "OWN Hamiltonian (for the as-found variant the kernel-checked counterexample stale_previous_energy_counterexample "
+          "and the 5-atom witness apply instead: a tree matching it is reported as a VIOLATION). PARTIAL: 'reported "
+          "energy = <psi|H|psi> of the normalised returned state' (C13), norm 1 and canonical form of the tensors (C10 "
+          "contracts) are validated numerically, not proved; 'matches the ground energy within the tolerance for small "
+          "gapped systems' (MatchesGroundEnergy) is NOT a theorem and is violated by two-site DMRG on weak drives (known "
+          "finding D23: local minimum)."),
     note=("Trusted: Lean kernel + propext/Classical.choice/Quot.sound; Mathlib; hand-written Model.Dmrg tied to the code "
           "by exact event/field correspondence only; tensors, Lanczos, SVD, QR are outside the model (energies are an "
           "environment tape); numerical oracles use dense numpy eigvalsh with stated tolerances."),
@@ -463,28 +467,37 @@ def sweeps_per_step(events):
     return res
 
 
-def known_findings(rep):
-    """Replay the two witnesses on the real code; report only what reproduces."""
+def stale_witness():
+    """The 5-atom witness of D19b (fixed in 3bcd9a6) on the real code: (message, data) if step 1 is accepted after a
+    single sweep far above its ground energy while clearing previous_energy at the boundary would have converged."""
     from unittest import mock
     import emu_mps.mps_backend_impl as M
     out = drive(STALE)
     errs, sps = _errors(STALE, out), sweeps_per_step(out["events"])
-    if out["finished"] and len(errs) == 2 and sps[1] == 1 and errs[1][0] > 100 * ENERGY_TOL and errs[1][1] > 0.05:
-        # attribution: the same sequence with previous_energy cleared at the step boundary converges to the ground state
-        orig = M.DMRGBackendImpl.timestep_complete
+    if not (out["finished"] and len(errs) == 2 and sps[1] == 1 and errs[1][0] > 100 * ENERGY_TOL and errs[1][1] > 0.05):
+        return None
+    orig = M.DMRGBackendImpl.timestep_complete
 
-        def tc(self):
-            orig(self)
-            self.previous_energy = None
-        with mock.patch.object(M.DMRGBackendImpl, "timestep_complete", tc):
-            out2 = drive(STALE)
-        errs2 = _errors(STALE, out2)
-        if len(errs2) == 2 and abs(errs2[1][0]) < MATCH_FACTOR * ENERGY_TOL:
-            rep.fail("step 1 accepted after ONE sweep because its energy is within 1e-5 of the stale previous_energy of step 0: "
-                     f"reported {out['reported'][2]!r}, ground energy {out['reported'][2] - errs[1][0]!r} (off by {errs[1][0]:.4f}, "
-                     f"gap {errs[1][1]:.4f}); with previous_energy cleared at the step boundary the same step takes "
-                     f"{sweeps_per_step(out2['events'])[1]} sweeps and ends {errs2[1][0]:.2e} above the ground energy",
-                     dict(case=STALE, sweeps_per_step=sps, errors=errs, errors_if_cleared=errs2), klass="dmrg-stale-previous-energy")
+    def tc(self):
+        orig(self)
+        self.previous_energy = None
+    with mock.patch.object(M.DMRGBackendImpl, "timestep_complete", tc):
+        out2 = drive(STALE)
+    errs2 = _errors(STALE, out2)
+    if not (len(errs2) == 2 and abs(errs2[1][0]) < MATCH_FACTOR * ENERGY_TOL):
+        return None
+    return ("step 1 accepted after ONE sweep because its energy is within 1e-5 of the stale previous_energy of step 0: "
+            f"reported {out['reported'][2]!r}, ground energy {out['reported'][2] - errs[1][0]!r} (off by {errs[1][0]:.4f}, "
+            f"gap {errs[1][1]:.4f}); with previous_energy cleared at the step boundary the same step takes "
+            f"{sweeps_per_step(out2['events'])[1]} sweeps and ends {errs2[1][0]:.2e} above the ground energy",
+            dict(case=STALE, witness="stale", sweeps_per_step=sps, errors=errs, errors_if_cleared=errs2))
+
+
+def known_findings(rep):
+    """Replay the two witnesses on the real code; report only what reproduces."""
+    w = stale_witness()
+    if w is not None:
+        rep.fail(w[0], w[1], klass="dmrg-stale-previous-energy")
     out = drive(LOCALMIN)
     errs = _errors(LOCALMIN, out)
     if out["finished"] and len(errs) == 1 and errs[0][0] > 100 * ENERGY_TOL and errs[0][1] > 0.05:
@@ -658,6 +671,9 @@ def check(rep: Report, tier: str, seed: int) -> None:
     rep.extra["t_import"] = round(time.time() - tl, 1)
     rep.extra["model_variant"] = {"0": "asFound (previous_energy kept across steps)",
                                   "1": "repaired (previous_energy cleared on convergence)"}[probe_variant()]
+    if VARIANT == "0":
+        rep.broke("DMRGBackendImpl.sweep_complete matches the asFound variant (previous_energy survives a completed step): "
+                  "repaired_every_step_compares_its_own_sweeps does not apply, stale_previous_energy_counterexample does")
     t0 = time.time()
     budget = 25.0 if quick else 600.0
     n_phys, n_tape = (14, 40) if quick else (150, 400)
@@ -747,7 +763,7 @@ def check(rep: Report, tier: str, seed: int) -> None:
     tl = time.time()
     known_findings(rep)
     rep.extra["t_known_findings"] = round(time.time() - tl, 1)
-    if rep.broken and not [f for f in rep.failing if not f["class"]]:
+    if rep.broken and not [f for f in rep.failing if f["class"] != "dmrg-local-minimum"]:
         search(rep, seed, 40 if quick else 400, tier)
 
 
@@ -819,7 +835,11 @@ def replay(rep: Report, path: str) -> int:
     bad = 0
     for f in data.get("failing_inputs", []):
         d = f["data"]
-        if "case" in d:
+        if d.get("witness") == "stale":
+            w = stale_witness()
+            print("replay:", w[0] if w else "property holds on this input now")
+            bad += bool(w)
+        elif "case" in d:
             case = d["case"]
             out = drive(case)
             msgs = oracle(case, out) + machine_oracle(case, out)
